@@ -47,4 +47,79 @@ Section Interp.
     intros c r. unfold eval_write_response, conn_write_response, src_wr_close_lo, src_wr_close_hi, src_wr_ok_branch, closes.
     destruct (c_ws c); reflexivity.
   Qed.
+  (* the `match result { .. }` of handle_http_conn as translated (src_conn_loop), over this connection model:
+     Ok => go on; Err(Disconnected) => return; Err(e) => the translated statements of the last arm *)
+  Fixpoint wf_eval_err_acts (acts : list loop_err_act) (r500 : response) (st : option (option cerr) * conn)
+    : option (option cerr) * conn :=
+    match acts with
+    | [] => st
+    | LAPrint :: rest => wf_eval_err_acts rest r500 st
+    | LAWriteErrorResponse :: rest =>
+        let '(res2, c2) := eval_write_response (snd st) r500 in wf_eval_err_acts rest r500 (Some res2, c2)
+    | LAShutdownWrite :: rest => wf_eval_err_acts rest r500 (fst st, shutdown_write (snd st))
+    | LAReturn :: _ => st
+    end.
+  Definition src_result_arm_acts : list loop_err_act :=
+    match src_conn_loop with
+    | [LSReturnUnlessReady; LSOnce; LSMatchResult acts] => acts
+    | _ => []
+    end.
+  Definition wf_eval_after_result (c : conn) (res : option cerr) (r500 : response) : option (option cerr) * conn :=
+    match res with
+    | None => (None, c)
+    | Some e => if is_disconnected e then (None, c) else wf_eval_err_acts src_result_arm_acts r500 (None, c)
+    end.
+  Theorem after_result_tie : forall c res r500,
+    wf_eval_after_result c res r500 = conn_after_result reason ct_text c res r500.
+  Proof.
+    intros c res r500. unfold wf_eval_after_result, conn_after_result. destruct res as [e|]; [|reflexivity].
+    destruct (is_disconnected e); [reflexivity|].
+    unfold src_result_arm_acts, src_conn_loop. cbn [wf_eval_err_acts snd fst]. rewrite write_response_tie.
+    destruct (conn_write_response reason ct_text c r500) as [res2 c2]. reflexivity.
+  Qed.
 End Interp.
+
+(* the same translated statements over the connection machine of Model/Conn.v (C04, C05, C09, C10) *)
+From SV Require Import Base.IO Model.Conn.
+Section InterpMachine.
+  Variable resp : Type.
+  Variable resp_code : resp -> N.
+  Variable write_out : resp -> bool -> option herr * bytes.
+
+  Definition m_eval_after (a : wr_after) (close one_xx : bool) (c : Conn.conn) : Conn.conn :=
+    match a with
+    | WASetNoneUnless1xx => if one_xx then c else mk_conn (c_rs c) WS_None (c_in c) (Conn.c_wire c) (c_wshut c)
+    | WAShutdownIfClose => if close then Conn.shutdown_write c else c
+    end.
+  Fixpoint m_eval_afters (l : list wr_after) (close one_xx : bool) (c : Conn.conn) : Conn.conn :=
+    match l with
+    | [] => c
+    | a :: rest => m_eval_afters rest close one_xx (m_eval_after a close one_xx c)
+    end.
+  Definition m_eval_write_response (c : Conn.conn) (r : resp) : option herr * Conn.conn :=
+    match Conn.c_ws c with
+    | WS_None => (Some ResponseAlreadySent, c)
+    | WS_Shutdown => (Some Disconnected, c)
+    | WS_Response =>
+        let close := (src_wr_close_lo <=? resp_code r) && (resp_code r <=? src_wr_close_hi) in
+        let '(res, accepted) := write_out r close in
+        let counter := N.of_nat (length accepted) in
+        let c1 := mk_conn (c_rs c) (Conn.c_ws c) (c_in c) (Conn.c_wire c ++ accepted) (c_wshut c) in
+        match res with
+        | None => (None, m_eval_afters src_wr_ok_branch close (Conn.is_1xx (resp_code r)) c1)
+        | Some e => (Some e, if 0 <? counter then Conn.shutdown_write c1 else c1)
+        end
+    end.
+
+  Theorem machine_write_response_tie :
+    forall c r, m_eval_write_response c r = Conn.write_response resp resp_code write_out c r.
+  Proof.
+    intros c r. unfold m_eval_write_response, Conn.write_response, src_wr_close_lo, src_wr_close_hi, src_wr_ok_branch,
+      is_5xx_close, in_range.
+    destruct (Conn.c_ws c); try reflexivity.
+    destruct (write_out r ((500 <=? resp_code r) && (resp_code r <=? 599))) as [res accepted].
+    destruct res as [e|].
+    - destruct accepted; reflexivity.
+    - cbn [m_eval_afters m_eval_after]. destruct (Conn.is_1xx (resp_code r)); reflexivity.
+  Qed.
+End InterpMachine.
